@@ -14,16 +14,21 @@
      statement failed when the notified host itself was offline with a notification pending: the host was
      listed as its own "previous IP" and notified twice; former finding c06-duplicate-dhcp-path-offline-offer.)
    History level ([C06_exactly_once]): for every disciplined history from NewSession (units: Parse;Notify /
-   purge / Capture / Release; no DHCP offers), at every unit and for EVERY address x, the notifications about x
+   purge / name update through any of the five Update*Name methods / Capture / Release; no DHCP offers), at
+   every unit and for EVERY address x, the notifications about x
    that the unit emits are exactly the ones the CHANGES of the C04 reference run owe for x ([due],
-   Spec/HostTrackingNotif.v: first seen / re-bound / back from offline / registered-but-never-announced =>
-   one online; turned offline by this sighting or aged out => one offline; otherwise none), and everything
+   Spec/HostTrackingNotif.v: first seen / re-bound / back from offline / registered-but-never-announced /
+   learned name changed since the last notification => one notification with the address's next frame; turned
+   offline by this sighting or aged out => one offline; an offline address of the MAC to which a notification is
+   still owed => carried along before the online notification of the MAC's new IPv4 address; otherwise none),
+   and everything
    announced about other addresses precedes the notification about the frame's own address.
    [C06_contents]: every notification emitted by Notify or purge equals toNotification of the tracked host
    and MAC entry in the state the step leaves behind (address, MAC, online flag, router flag, names).
    Scope of the history theorem (partial with respect to the property's quantifier): histories with
-   DHCPv4Update / SetDHCPv4IPOffer / Update*Name are covered by the per-step theorems and by the
-   correspondence run only. *)
+   DHCPv4Update / SetDHCPv4IPOffer (which record a DHCP offer on the MAC entry and thereby open the DHCP path of
+   Notify, whose reference needs the MAC entry's lifetime) are covered by the per-step theorems
+   ([C06_notify_dhcp_path_once]) and by the correspondence run only. *)
 From PV Require Import Base.Prelude Model.Tables Model.TablesKnown Spec.HostTrackingInv Spec.HostTracking
   Spec.HostTrackingNotif Proofs.Tables Proofs.TablesRefine Proofs.TablesPred Proofs.TablesNotif Proofs.TablesNotifHist.
 
@@ -149,6 +154,8 @@ Example C06_history_emissions :
     [(IP4 3232235521, false); (IP4 3232235522, true)];          (* IP change: offline before online *)
     [(IP4 3232235522, true)];                                   (* re-binding *)
     [];                                                         (* Capture *)
+    [];                                                         (* a learned name: nothing yet *)
+    [(IP4 3232235522, true)];                                   (* ... delivered with the address's next frame *)
     [(IP4 3232235522, false); (IP4 3232235531, false)];         (* ageing (the router was never announced) *)
     [(IP6 338288524927261089654018896841347694593, true)] ].    (* router's link-local address first seen *)
 Proof. exact ex_units_emissions. Qed.
